@@ -83,6 +83,15 @@ func init() {
 			Rule: "permuted+duplicated twin sequences and a split stream merged; distinct by SHA-1",
 			Quick: 250, Thorough: 3000},
 	}
+	machineByID[6] = func() Machine { return &hllRedis{} }
+	registry["C05"] = append(registry["C05"], Suite{Name: "hll-redis", NewMachine: func() Machine { return &hllRedis{} }, Gen: genC05,
+		Monitors: []Monitor{monitorHLL("redis", "C05")}, OpName: hllOpName,
+		Nontrivial: func(r *RunResult) bool { return countOps(r, hlUpdate) >= 1 },
+		Rule: "as hll-mem, against the Redis-backed sketch on miniredis", Quick: 100, Thorough: 1500})
+	registry["C06"] = append(registry["C06"], Suite{Name: "hll-redis", NewMachine: func() Machine { return &hllRedis{} }, Gen: genC06,
+		Monitors: []Monitor{monitorHLL("redis", "C06")}, OpName: hllOpName,
+		Nontrivial: func(r *RunResult) bool { return countOps(r, hlMerge) >= 1 },
+		Rule: "as hll-mem, against the Redis-backed sketch on miniredis", Quick: 100, Thorough: 1500})
 	registry["C03"] = []Suite{
 		{Name: "cms-mem", NewMachine: func() Machine { return &withCodec{genericMachine: &cmsMem{}} }, Gen: genC03,
 			Monitors: []Monitor{monitorCMS("mem", "C03")}, OpName: cmsOpName,
